@@ -54,15 +54,29 @@ def warm(obj, rng=None):
         except Exception:  # noqa: BLE001  (spheropolytopes have no centroid)
             c = np.asarray(getattr(obj, "vertices", np.zeros((1, 3))), dtype=float).mean(axis=0)
         c3 = np.r_[c, np.zeros(3)][:3]
-        for call in (lambda: obj.get_face_area(), lambda: obj.is_inside(np.array([c3, c3 + 1.0])),
-                     lambda: obj.compute_form_factor_amplitude(np.array([[0.3, -0.2, 0.5], [0.0, 0.0, 0.0]])),
-                     lambda: obj.distance_to_surface(np.array([0.3, 2.0, 4.1])),
-                     lambda: obj.get_dihedral(0, int(obj.neighbors[0][0])),
-                     lambda: obj.to_hoomd(), lambda: repr(obj)):
+        calls = [lambda: obj.get_face_area(), lambda: obj.is_inside(np.array([c3, c3 + 1.0])),
+                 lambda: obj.compute_form_factor_amplitude(np.array([[0.3, -0.2, 0.5], [0.0, 0.0, 0.0]])),
+                 lambda: obj.distance_to_surface(np.array([0.3, 2.0, 4.1])),
+                 lambda: obj.get_dihedral(0, int(obj.neighbors[0][0])),
+                 lambda: obj.to_hoomd(), lambda: repr(obj)]
+        if rng is not None:
+            # to_hoomd moves the shape to the origin and back, which refreshes whatever the centroid setter refreshes:
+            # it must not always come last (nor always be called), or no cache survives the warming
+            if rng.random() < 0.5:
+                calls.pop(5)
+            calls = [calls[i] for i in rng.permutation(len(calls))]
+        for call in calls:
             try:
                 call()
             except Exception:  # noqa: BLE001
                 pass
+        if rng is not None and rng.random() < 0.5:
+            # and once more the plain properties, so that the LAST thing before the next mutator is a read
+            for n in names[: max(1, len(names) // 2)]:
+                try:
+                    getattr(obj, n)
+                except Exception:  # noqa: BLE001
+                    pass
 
 
 def _clone_with(obj, V, radius=None):
@@ -135,6 +149,9 @@ def via_history(obj, rng):
                 cattr = "centroid" if (rng.random() < 0.5 or not hasattr(type(obj), "center")) else "center"
                 setattr(o, cattr, k * np.array(getattr(obj, cattr), dtype=float))
                 how.append(cattr)
+                if rng.random() < 0.7:
+                    warm(o, rng)          # caches dropped by the first mutator are filled again before the second
+                    how.append("warm")
             if not sphero:
                 three_d = name in ("ConvexPolyhedron", "Polyhedron")
                 setters = (["volume", "surface_area"] if three_d else ["area", "perimeter"])
@@ -162,6 +179,9 @@ def via_history(obj, rng):
             if size_last:
                 cattr = None
             else:
+                if rng.random() < 0.7:
+                    warm(o, rng)
+                    how.append("warm")
                 cattr = "centroid" if (rng.random() < 0.5 or not hasattr(type(obj), "center")) else "center"
             try:
                 if cattr is not None:
